@@ -474,6 +474,54 @@ theorem v5_published_end_to_end {cfg : Cfg} {spec : CountSpec} (hc : Canonical s
     · rw [hp']; exact v5_marshal_valid _ _
     · rw [hp']; exact v5_marshal_accepted _ _
 
+/-- the sFlow instance (filter list `f`; no cache; the worker's `len(Counters) < 1 && len(Samples) < 1` test;
+`json.Marshal(datagram)`, which fails — nothing is published — exactly when an address has a length other than 0, 4, 16;
+`ColTime` is 0 in the model) -/
+def sflowCodec (f : List Nat) : Codec where
+  Cache := Unit
+  Msg := Sflow.Datagram
+  decode := fun _ _ bs =>
+    (match Sflow.decode f bs with
+     | .ok d => some d
+     | _ => none, ())
+  hasData := fun d => !(d.counters.isEmpty && d.samples.isEmpty)
+  marshal := fun d => Sflow.Json.sflowJson? d
+
+/-- **C05 end to end (sFlow)**: unconditional -/
+theorem sflow_published_end_to_end {cfg : Cfg} {spec : CountSpec} (f : List Nat) (hc : Canonical spec cfg.prog)
+    {mem0 : BufId → Bytes} {s : State (sflowCodec f)}
+    (hr : Reach cfg (init (sflowCodec f) () mem0) s) (id : Nat) (p : Bytes)
+    (hp : Event.published id p ∈ s.log) :
+    ∃ (d : Dgram) (dg : Sflow.Datagram),
+      Event.received d ∈ s.log ∧ d.id = id ∧ Sflow.decode f d.bytes = .ok dg ∧
+      (dg.counters ≠ [] ∨ dg.samples ≠ []) ∧
+      p = render (Sflow.Json.sflowTree dg) ∧ DVal p (Sflow.Json.sflowTree dg) ∧ jsonValid p = true := by
+  obtain ⟨d, cache, h1, h2, m, hm, hd, hmar⟩ := C12.solo_spelled_out ((C12.published_is_solo hc hr).2.2 id p hp)
+  have hdec : ((sflowCodec f).decode cache d.addr d.bytes).1 =
+      (match Sflow.decode f d.bytes with
+       | .ok dg => some dg
+       | _ => none) := rfl
+  rw [hdec] at hm
+  cases hx : Sflow.decode f d.bytes with
+  | ok dg =>
+    rw [hx] at hm
+    have hm' := Option.some.inj hm
+    subst hm'
+    have hne : dg.counters ≠ [] ∨ dg.samples ≠ [] := by
+      by_cases hcnt : dg.counters = []
+      · right; intro hs; simp [sflowCodec, hcnt, hs] at hd
+      · left; exact hcnt
+    have hj : Sflow.Json.sflowJson? dg = some p := hmar
+    have hp' : p = render (Sflow.Json.sflowTree dg) := by
+      unfold Sflow.Json.sflowJson? at hj
+      split at hj
+      · exact (Option.some.inj hj).symm
+      · simp at hj
+    exact ⟨d, dg, h1, h2, hx, hne, hp', sflow_published_valid dg p hj, sflow_published_accepted dg p hj⟩
+  | err e => rw [hx] at hm; simp at hm
+  | panic => rw [hx] at hm; simp at hm
+  | fuel => rw [hx] at hm; simp at hm
+
 /-- non-vacuity of the chain: the example message of C03 (a template, an options template, two data sets with a
 variable-length field and set padding, three records) meets both hypotheses -/
 example : Wire.Ipfix.wfMsg C03.exAddr [] C03.exMsg = true ∧ (Wire.Ipfix.expected C03.exAddr [] C03.exMsg).1 ≠ [] := by
